@@ -84,9 +84,17 @@ def enumerate_paths(fn, max_paths=MAX_PATHS):
             return o1 + o2, b1 + b2, c1 + c2
         if isinstance(st, (ast.For, ast.While)):
             hdr = ("stmt", st)
-            skip = [p + [hdr, ("loop", st, "skip")] for p in prefixes]
-            enter = [p + [hdr, ("loop", st, "enter")] for p in prefixes]
-            o, b, c = block(st.body, enter, loop_depth + 1)
+            if isinstance(st, ast.While):
+                # a while loop is left normally only with its test false
+                skip = [p + [hdr, ("loop", st, "skip"), ("test", st.test, False)] for p in prefixes]
+                enter = [p + [hdr, ("loop", st, "enter"), ("test", st.test, True)] for p in prefixes]
+                o, b, c = block(st.body, enter, loop_depth + 1)
+                o = [p + [("test", st.test, False)] for p in o]
+                c = [p + [("test", st.test, False)] for p in c]
+            else:
+                skip = [p + [hdr, ("loop", st, "skip")] for p in prefixes]
+                enter = [p + [hdr, ("loop", st, "enter")] for p in prefixes]
+                o, b, c = block(st.body, enter, loop_depth + 1)
             after = skip + o + b + c
             if st.orelse:
                 o2, b2, c2 = block(st.orelse, skip + o + c, loop_depth)
@@ -195,9 +203,34 @@ def every_path(paths, pred):
 def feasible(path):
     """False when a test on a local flag contradicts the constant assigned to it earlier on the path."""
     env = {}
+    seen_tests = {}          # test text -> (polarity, names)
+
+    def kill(name):
+        for k in [k for k, v in seen_tests.items() if name in v[1]]:
+            del seen_tests[k]
     for e in path.ev:
         if e[0] == "stmt":
             st = e[1]
+            tg = []
+            if isinstance(st, ast.Assign):
+                tg = st.targets
+            elif isinstance(st, (ast.AugAssign, ast.AnnAssign)):
+                tg = [st.target]
+            elif isinstance(st, ast.For):
+                tg = [st.target]
+            for t in tg:
+                for n in ast.walk(t):
+                    if isinstance(n, ast.Name):
+                        kill(n.id)
+                    elif isinstance(n, ast.Attribute):
+                        kill(n.attr)
+            if isinstance(st, ast.Expr) and isinstance(st.value, ast.Call) and isinstance(st.value.func, ast.Attribute):
+                # a method call may mutate its receiver (list.append, dict.update, ...)
+                for n in ast.walk(st.value.func.value):
+                    if isinstance(n, ast.Name):
+                        kill(n.id)
+                    elif isinstance(n, ast.Attribute):
+                        kill(n.attr)
             if isinstance(st, ast.Assign) and len(st.targets) == 1 and isinstance(st.targets[0], ast.Name):
                 nm = st.targets[0].id
                 if isinstance(st.value, ast.Constant) and (isinstance(st.value.value, bool) or st.value.value is None):
@@ -214,6 +247,16 @@ def feasible(path):
             t, pol = e[1], e[2]
             while isinstance(t, ast.UnaryOp) and isinstance(t.op, ast.Not):
                 t, pol = t.operand, not pol
+            # the same side-effect free test repeated with nothing it mentions re-assigned in between
+            if not any(isinstance(n, ast.Call) for n in ast.walk(t)):
+                key = norm(t)
+                if key in seen_tests:
+                    if seen_tests[key][0] != pol:
+                        return False
+                else:
+                    names = {n.id for n in ast.walk(t) if isinstance(n, ast.Name)} | \
+                            {n.attr for n in ast.walk(t) if isinstance(n, ast.Attribute)}
+                    seen_tests[key] = (pol, names)
             if isinstance(t, ast.Name) and t.id in env:
                 if bool(env[t.id][1]) != pol:
                     return False
